@@ -167,9 +167,6 @@ let run_rqueue (input : Sexp.t) (impl : Sexp.t) : Verdict.t =
   let restarts = List.exists (fun o -> o = ORestart) ops in
   let kf = match rq_class max ifexp ops with
     | RQNone -> "-"
-    | RQLrangeMinus1 -> "kf_redis_queue_lrange_minus1"
-    | RQStaleCache -> "kf_redis_queue_stale_cache"
-    | RQReplaceCursor0 -> "kf_redis_queue_replace_cursor0"
     | RQOther -> "unclassified" in
   { Verdict.agree; oracle; kf;
     nontrivial = reads > 0 && (drops > 0 || replays > 0);
